@@ -73,7 +73,8 @@ def check(msg, asn4, add_path, opts):
 
 def task_valid(args):
     which, lo, hi, tier = args
-    gen = pools.c06_cases(tier) if which == 'c06' else pools.c07_cases(tier)
+    from . import c06
+    gen = c06.cases_of(which, tier)
     out = []
     classes = set()
     n = 0
@@ -239,8 +240,8 @@ def run(tier, seed):
     col = report.Collector(PROP)
     tasks = [('combos', ()), ('errors', ()), ('session', ())]
     for which in ('c06', 'c07'):
-        gen = pools.c06_cases(tier) if which == 'c06' else pools.c07_cases(tier)
-        total = sum(1 for _ in gen)
+        from . import c06
+        total = sum(1 for _ in c06.cases_of(which, tier))
         step = 1000
         for lo in range(0, total, step):
             tasks.append(('valid', (which, lo, lo + step, tier)))
